@@ -65,5 +65,14 @@ C17d C17
 C18d C18
 C19d C19
 C20d C20
+C04e C04
+C05e C05
+C05e C01
+C07e C07
+C08e C08
+C09e C10
+C10e C08
+C11e C11
+C15e C15
 LIST
 cat $out
